@@ -13,7 +13,7 @@ ID = "C08"
 RULE = (
     "1..3 Twp/Rges per text, numbers of 1-3 digits biased to collide (1/11/111, equal numbers with different directions, "
     "repeats) x 12 full spellings and 14 spellings with N/S and/or E/W left out x default_ns/default_ew supplied through "
-    "{config text, parse() keyword, MasterConfig (set before or after the object is created), nothing} and independently to find_twprge; plus OCR look-alike letters "
+    "{config text, parse() keyword, MasterConfig (set before or after the object is created), a plain parse after a parse with one-off keywords, nothing} and independently to find_twprge; numbers optionally zero-padded to 2 or 3 digits; plus OCR look-alike letters "
     "(I, l, O, S for 1, 1, 0, 5) substituted into the numbers of T..R.. spellings under ocr_scrub. Each Twp/Rge heads a "
     "'Sec N: block' tract; optionally a parse mode that is conservative on such text (segment, the colon modes, a forced TRS_desc layout, sec_within, "
     "parse_qq with clean_qq) is switched on as well. Expected natural forms, tracts and the fixed_twprge warning are computed from the abstract value. "
@@ -75,6 +75,7 @@ def case(draw, ocr=False):
             tr["picks"] = draw(st.lists(st.integers(0, 2), min_size=3, max_size=3))
         else:
             tr["case"] = draw(st.sampled_from(["asis", "asis", "lower", "upper"]))
+            tr["zpad"] = draw(st.sampled_from([0, 0, 0, 2, 3]))       # numbers written with leading zeros up to this width ('T04N-R08W')
             tr["missing"] = draw(st.sampled_from(["none", "none", "both", "ns", "ew"]))
             table = {"none": FULL, "both": NO_BOTH, "ns": NO_NS, "ew": NO_EW}[tr["missing"]]
             tr["sp"] = draw(st.sampled_from(sorted(table)))
@@ -83,7 +84,7 @@ def case(draw, ocr=False):
         trs.append(tr)
     return {
         "trs": trs, "sep": draw(st.sampled_from([", ", "\n", ";\n", "\n\n"])), "tsep": draw(st.sampled_from([" ", "\n", ", "])),
-        "channel": draw(st.sampled_from(["config", "config_long", "kw", "kw_over_config", "master", "master_late", "none"])),
+        "channel": draw(st.sampled_from(["config", "config_long", "kw", "kw_over_config", "master", "master_late", "none", "plain_after_one_off_kw"])),
         "dns": draw(st.sampled_from("ns")), "dew": draw(st.sampled_from("ew")), "ocr": ocr,
         # an optional parse mode that is conservative on these texts (every Twp/Rge heads 'Sec N: block'): the reading of the Twp/Rges may not depend on it
         "mode": draw(st.sampled_from(MODES)),
@@ -93,6 +94,8 @@ def case(draw, ocr=False):
 def tr_text(tr, ocr=False):
     table = OCR if ocr else {"none": FULL, "both": NO_BOTH, "ns": NO_NS, "ew": NO_EW}[tr["missing"]]
     t, r = str(tr["twp"]), str(tr["rge"])
+    if tr.get("zpad"):
+        t, r = t.zfill(tr["zpad"]), r.zfill(tr["zpad"])
     if ocr:
         t, r = lookalike(t, tr["picks"]), lookalike(r, tr["picks"][::-1])
     out = table[tr["sp"]].format(t=t, r=r, N=tr["ns"].upper(), W=tr["ew"].upper(), n=tr["ns"], w=tr["ew"],
@@ -150,6 +153,13 @@ def oracle(c):
             opp = ",".join(x for x in ({"n": "s", "s": "n"}[dns], {"e": "w", "w": "e"}[dew], ocr_cfg) if x)
             d = PLSSDesc(text, config=opp, wait_to_parse=True)
             d.parse(default_ns=dns, default_ew=dew)
+        elif ch == "plain_after_one_off_kw":
+            # a parse with the opposite defaults as one-off keywords, then a plain parse: the configured defaults are back in force
+            opp_ns, opp_ew = {"n": "s", "s": "n"}[dns], {"e": "w", "w": "e"}[dew]
+            d = PLSSDesc(text, config=",".join(x for x in (dns, dew, ocr_cfg) if x), wait_to_parse=True)
+            d.parse(default_ns=opp_ns, default_ew=opp_ew)
+            d.preprocess(default_ns=opp_ns, commit=True)
+            d.parse()
         elif ch == "master":
             MasterConfig.default_ns, MasterConfig.default_ew = dns, dew
             d = PLSSDesc(text, config=ocr_cfg)
@@ -206,6 +216,8 @@ def classes(c):
     for tr in c["trs"]:
         out.add(f"case={tr.get('case', 'asis')}")
         out.add(f"missing={tr['missing']}")
+        if tr.get("zpad") and (len(str(tr["twp"])) < tr["zpad"] or len(str(tr["rge"])) < tr["zpad"]):
+            out.add("zero_padded")
         out.add(f"sp={tr['missing']}:{tr['sp']}")
     nums = [(tr["twp"], tr["rge"]) for tr in c["trs"]]
     if len(set(nums)) < len(nums):
@@ -223,7 +235,7 @@ def render(c):
 SUBS = [
     Sub("spellings", oracle, strategy=lambda tier: case(), validate=validate, nontrivial=nontrivial, classes=classes, render=render,
         n={"quick": 1000, "thorough": 15000}, shards={"quick": 8, "thorough": 16},
-        essential=("missing=both", "missing=ns", "missing=ew", "channel=config", "channel=kw", "channel=master", "channel=master_late", "channel=kw_over_config", "case=lower", "case=upper", "same_numbers_twice", "mode=segment", "mode=sec_colon_required", "mode=TRS_desc",
+        essential=("missing=both", "missing=ns", "missing=ew", "channel=config", "channel=kw", "channel=master", "channel=master_late", "channel=kw_over_config", "channel=plain_after_one_off_kw", "zero_padded", "case=lower", "case=upper", "same_numbers_twice", "mode=segment", "mode=sec_colon_required", "mode=TRS_desc",
                    "number_substring_collision")),
     Sub("ocr", oracle, strategy=lambda tier: case(ocr=True), validate=validate, nontrivial=nontrivial, classes=classes, render=render,
         n={"quick": 500, "thorough": 6000}, shards={"quick": 4, "thorough": 16}),
